@@ -53,10 +53,10 @@ impl Scenario for C08S {
     }
     fn count(&self, tier: Tier, variant: &str) -> u64 {
         match (tier, variant) {
-            (Tier::Quick, "os") => 6000,
-            (Tier::Quick, _) => 1500,
-            (Tier::Thorough, "os") => 250_000,
-            (Tier::Thorough, _) => 60_000,
+            (Tier::Quick, "os") => 25_000,
+            (Tier::Quick, _) => 6000,
+            (Tier::Thorough, "os") => 1_000_000,
+            (Tier::Thorough, _) => 250_000,
         }
     }
     fn rule(&self) -> &'static str {
